@@ -64,23 +64,18 @@ Fixpoint powi_loop (fuel : nat) (a r : F) (b : N) : F :=
   end.
 Definition powi10 (n : N) : F := powi_loop 10 (fofZ 10) f1 n.
 
+(* format_number (formatter/mod.rs:45-79): the integer part and the zero-fraction test are
+   read from the printed digits themselves *)
 Definition format_number (number : F) (tsep dsep : str) (digits : N) (rm_zero use_round : bool) : res str :=
-  let divider := powi10 digits in
-  let fract_number := do_division (fround (fmul number divider)) divider in
-  let trunc_part := fdisplay (fabs (ftrunc fract_number)) in
   let formated := if use_round then ffixed (fabs number) digits else fdisplay (fabs number) in
-  match fract_information (ffract fract_number) with
-  | None => Panic SITE_FI_FUEL
-  | Some fract_part =>
-    let trunc_size := length trunc_part in
-    if Nat.ltb (length formated) trunc_size then Panic SITE_NTH_UNWRAP else
-    let dot0 := (3 - Nat.modulo trunc_size 3)%nat in
-    let head := (if fltb number f0 then [45%N] else [])
-                  ++ group_loop (firstn trunc_size formated) 0 trunc_size dot0 tsep in
-    if ((0 <? fract_part) || negb rm_zero) && negb (Nat.eqb trunc_size (length formated))
-    then Ok (head ++ dsep ++ skipn (S trunc_size) formated)
-    else Ok head
-  end.
+  let trunc_size := match find_index (N.eqb 46) formated with Some i => i | None => length formated end in
+  let fract_is_zero := forallb (N.eqb 48) (skipn (S trunc_size) formated) in
+  let dot0 := (3 - Nat.modulo trunc_size 3)%nat in
+  let head := (if fltb number f0 then [45%N] else [])
+                ++ group_loop (firstn trunc_size formated) 0 trunc_size dot0 tsep in
+  if (negb fract_is_zero || negb rm_zero) && negb (Nat.eqb trunc_size (length formated))
+  then Ok (head ++ dsep ++ skipn (S trunc_size) formated)
+  else Ok head.
 
 (* ---------- integers in bases ---------- *)
 Definition digit_char (upper : bool) (d : Z) : N :=
